@@ -7,6 +7,7 @@ import Pyunicorn.Lemmas.NetBetwPaths
 import Pyunicorn.Lemmas.NetBetwAsm
 import Pyunicorn.Lemmas.NetBetwKernel
 import Pyunicorn.Lemmas.NetRW
+import Pyunicorn.Lemmas.NetRWInv
 import Pyunicorn.Generated.ArithC03
 /-!
 # C03 — Network measures equal their published definitions
@@ -1502,5 +1503,152 @@ example : newmanNormalise 3 (newmanRow 3 (subAdj p3k2 [0, 1, 2] 1)
 example : OnLinks d3 (fun i j => if d3 i j then 2 else 0) := by
   intro x y h; simp [h]
 example : cycleCW 3 d3 (fun i j => if d3 i j then 2 else 0) 0 = 8 := by decide +kernel
+
+/-! ### Round 5e: `ratInv` **is** the inverse — no per-case hypothesis
+
+Until round 5 the identity `K · ratInv K = I` was evaluated per case by the driver (request
+`newmandef`) and `newman_eq_def` was stated for an arbitrary matrix `V` of potentials.  The
+theorems below prove it once and for all (`Lemmas/NetRWInv.lean`: `gaussStep_spec` reads the list
+code of one elimination step entry by entry; the invariants are those of C10's
+`Coupling.gjInv_step` / `Coupling.kerInv_step`), and restate the Newman theorems with `V` **the**
+inverse of the reduced Kirchhoff matrix. -/
+
+/-- `sp_M[:-1, :-1]` is a square `(N-1) × (N-1)` matrix -/
+theorem reducedKirchhoff_shape (N : Nat) (b : Adj) :
+    Coupling.Shape (reducedKirchhoff N b) (N - 1) (N - 1) := by
+  constructor
+  · simp [reducedKirchhoff]
+  · intro k hk
+    unfold reducedKirchhoff
+    rw [Coupling.getD_map_range _ _ _ _ hk]; simp
+
+/-- **`ratInv` is correct and two-sided**: for every square rational matrix `m` (any size `N`),
+whatever `ratInv m` returns is a left *and* a right inverse of `m`, and has the shape of `m`
+(`matFn inv` is `0` outside `N × N`: the padding `V[:-1, :-1] = inv(...)` of the method). -/
+theorem ratInv_correct (m inv : List (List Rat)) (N : Nat) (hS : Coupling.Shape m N N)
+    (h : ratInv m = some inv) :
+    (∀ i j, i < N → j < N →
+      sumToQ N (fun l => matFn inv i l * matFn m l j) = (if i = j then 1 else 0) ∧
+      sumToQ N (fun l => matFn m i l * matFn inv l j) = (if i = j then 1 else 0)) ∧
+    Coupling.Shape inv N N ∧ ∀ i j, N ≤ i ∨ N ≤ j → matFn inv i j = 0 :=
+  ⟨fun i j hi hj => ⟨ratInv_left m inv N hS h i j hi hj, ratInv_right m inv N hS h i j hi hj⟩,
+   ratInv_shape m inv N hS h, matFn_outside inv N (ratInv_shape m inv N hS h)⟩
+
+/-- **uniqueness**: every matrix `P` with `m · P = I` on the indices `< N` — the specification of
+`scipy.sparse.linalg.inv` — has exactly the entries `ratInv m` returns. -/
+theorem ratInv_is_the_inverse (m inv : List (List Rat)) (N : Nat) (hS : Coupling.Shape m N N)
+    (h : ratInv m = some inv) (P : Nat → Nat → Rat)
+    (hP : ∀ i j, i < N → j < N →
+      sumToQ N (fun l => matFn m i l * P l j) = if i = j then 1 else 0) :
+    ∀ i j, i < N → j < N → P i j = matFn inv i j :=
+  ratInv_unique m inv N hS h P hP
+
+/-- **completeness**: `ratInv m = none` exactly for singular `m` (a non-zero vector of the
+kernel), and `ratInv m` returns a matrix exactly when `m` has an inverse at all. -/
+theorem ratInv_complete (m : List (List Rat)) (N : Nat) (hS : Coupling.Shape m N N) :
+    (ratInv m = none ↔
+      ∃ v : Nat → Rat, (∃ l, l < N ∧ v l ≠ 0) ∧
+        ∀ k, k < N → sumToQ N (fun l => matFn m k l * v l) = 0) ∧
+    ((∃ inv, ratInv m = some inv) ↔
+      ∃ P : Nat → Nat → Rat, ∀ i j, i < N → j < N →
+        sumToQ N (fun l => matFn m i l * P l j) = if i = j then 1 else 0) := by
+  refine ⟨ratInv_none_iff m N hS, ?_, ?_⟩
+  · intro ⟨inv, h⟩
+    exact ⟨matFn inv, fun i j hi hj => ratInv_right m inv N hS h i j hi hj⟩
+  · intro ⟨P, hP⟩
+    cases h : ratInv m with
+    | some inv => exact ⟨inv, rfl⟩
+    | none =>
+      exfalso
+      obtain ⟨v, ⟨l, hl, hne⟩, hk⟩ := (ratInv_none_iff m N hS).mp h
+      have hleft := Coupling.left_inverse_is_right P (matFn m) N
+        (fun a b ha hb => by rw [cSum_eq]; exact hP a b ha hb)
+      exact hne (Coupling.left_inverse_kernel (matFn m) P N hleft v
+        (fun k hk' => by rw [cSum_eq]; exact hk k hk') l hl)
+
+/-- **`Network.newman_betweenness` on one component = the definition, with `V` the inverse**:
+whenever the model of the method returns values for a component of size `N ≥ 2`, the matrix it
+used is a two-sided inverse of the reduced Kirchhoff matrix `(D - A)[:-1, :-1]` of the component,
+and node `i` of the component receives `Σ_{t<s<N} I_i^{st} / ((N-1)/2)` evaluated with these
+potentials (`newman_eq_def` without the free `V`). -/
+theorem newmanComponent_eq_def (a : Adj) (comp : List Nat) (vals : List Rat)
+    (hN : 2 ≤ comp.length) (h : newmanComponent a comp = some vals) :
+    ∃ inv, ratInv (reducedKirchhoff comp.length (subAdj a comp)) = some inv ∧
+      (∀ i j, i < comp.length - 1 → j < comp.length - 1 →
+        sumToQ (comp.length - 1) (fun l =>
+          matFn (reducedKirchhoff comp.length (subAdj a comp)) i l * matFn inv l j) =
+            (if i = j then 1 else 0) ∧
+        sumToQ (comp.length - 1) (fun l =>
+          matFn inv i l * matFn (reducedKirchhoff comp.length (subAdj a comp)) l j) =
+            (if i = j then 1 else 0)) ∧
+      vals.length = comp.length ∧
+      ∀ i, i < comp.length →
+        vals[i]? = some (newmanDef comp.length (subAdj a comp) (matFn inv) i) := by
+  unfold newmanComponent at h
+  simp only at h
+  cases hr : ratInv (reducedKirchhoff comp.length (subAdj a comp)) with
+  | none => rw [hr] at h; cases h
+  | some inv =>
+    rw [hr] at h
+    simp only [Option.map_some, Option.some.injEq] at h
+    subst h
+    refine ⟨inv, rfl, ?_, ?_, ?_⟩
+    · intro i j hi hj
+      exact ⟨ratInv_right _ inv _ (reducedKirchhoff_shape _ _) hr i j hi hj,
+        ratInv_left _ inv _ (reducedKirchhoff_shape _ _) hr i j hi hj⟩
+    · simp [newmanKernel]
+    · intro i hi
+      rw [List.getElem?_map, newmanKernel_get _ _ _ _ _ _ (by omega)]
+      exact congrArg some (newman_eq_def _ _ _ _ hN hi)
+
+/-- **… for every correct inverse** (closes "`ratInv` is checked per case only"): let `V` be *any*
+matrix with `K · V = I` on `(N-1) × (N-1)` for the reduced Kirchhoff matrix `K` of the component
+and zero last row and column (`V = lil_matrix((N, N)); V[:-1, :-1] = inv(K)` for an `inv` that
+meets its specification).  Then the values the model of the method returns are the definition
+evaluated with `V`. -/
+theorem newmanComponent_any_inverse (a : Adj) (comp : List Nat) (vals : List Rat)
+    (hN : 2 ≤ comp.length) (h : newmanComponent a comp = some vals) (V : RMat)
+    (hV : ∀ i j, i < comp.length - 1 → j < comp.length - 1 →
+      sumToQ (comp.length - 1) (fun l =>
+        matFn (reducedKirchhoff comp.length (subAdj a comp)) i l * V l j) = if i = j then 1 else 0)
+    (hpad : ∀ i j, comp.length - 1 ≤ i ∨ comp.length - 1 ≤ j → V i j = 0) :
+    ∀ i, i < comp.length → vals[i]? = some (newmanDef comp.length (subAdj a comp) V i) := by
+  obtain ⟨inv, hr, _, _, hvals⟩ := newmanComponent_eq_def a comp vals hN h
+  have hS := reducedKirchhoff_shape comp.length (subAdj a comp)
+  have e : V = matFn inv := by
+    funext i j
+    by_cases hij : i < comp.length - 1 ∧ j < comp.length - 1
+    · exact ratInv_unique _ inv _ hS hr V hV i j hij.1 hij.2
+    · have hor : comp.length - 1 ≤ i ∨ comp.length - 1 ≤ j := by omega
+      rw [hpad i j hor, matFn_outside inv _ (ratInv_shape _ inv _ hS hr) i j hor]
+  rw [e]; exact hvals
+
+/-- the method fails on a component (`scipy`: "singular matrix") exactly when the reduced
+Kirchhoff matrix has a non-zero kernel vector -/
+theorem newmanComponent_none_iff (a : Adj) (comp : List Nat) :
+    newmanComponent a comp = none ↔
+      ∃ v : Nat → Rat, (∃ l, l < comp.length - 1 ∧ v l ≠ 0) ∧
+        ∀ k, k < comp.length - 1 → sumToQ (comp.length - 1) (fun l =>
+          matFn (reducedKirchhoff comp.length (subAdj a comp)) k l * v l) = 0 := by
+  unfold newmanComponent
+  simp only [Option.map_eq_none_iff]
+  exact ratInv_none_iff _ _ (reducedKirchhoff_shape _ _)
+
+/-! non-vacuity (round 5e): a regular and a singular matrix; a row swap is needed for
+`[[0, 1], [1, 0]]`; the path component of `p3k2`; a node set that is not connected -/
+example : ratInv [[2, 1], [1, 1]] = some [[1, -1], [-1, 2]] := by decide +kernel
+example : ratInv [[0, 1], [1, 0]] = some [[0, 1], [1, 0]] := by decide +kernel
+example : ratInv [[1, 1], [1, 1]] = none := by decide +kernel
+example : Coupling.Shape [[2, 1], [1, (1 : Rat)]] 2 2 := ⟨rfl, fun k hk => by
+  match k, hk with
+  | 0, _ => rfl
+  | 1, _ => rfl⟩
+example : sumToQ 2 (fun l => matFn [[1, 1], [1, 1]] 0 l * (if l = 0 then 1 else -1)) = 0 := by
+  decide +kernel
+example : reducedKirchhoff 3 (subAdj p3k2 [0, 1, 2]) = [[1, -1], [-1, 2]] := by decide +kernel
+example : ratInv (reducedKirchhoff 3 (subAdj p3k2 [0, 1, 2])) = some [[2, 1], [1, 1]] := by
+  decide +kernel
+example : newmanComponent p3k2 [0, 1, 2] = some [2, 3, 2] := by decide +kernel
+example : newmanComponent p3k2 [0, 3] = none := by decide +kernel
 
 end Pyunicorn.Net
